@@ -91,6 +91,8 @@ type c08File struct {
 	offsets [][][]int64 // [rg][col] file offset of each page
 	dict    [][]bool    // [rg][col] chunk metadata has a dictionary page offset
 	psize   [][][]int64 // [rg][col] compressed size of each page, header included
+	chunkLo [][]int64   // [rg][col] first byte of the chunk (dictionary page if any)
+	chunkHi [][]int64   // [rg][col] first byte behind the chunk
 	bad     *c08Bad     // one page whose body was corrupted after the oracle was built (nil: intact file)
 	buffer  func() (parquet.RowGroup, error)
 }
@@ -174,6 +176,7 @@ func c08Oracle(f *c08File) error {
 		f.rgStart = append(f.rgStart, f.rgStart[len(f.rgStart)-1]+int(rg.NumRows()))
 		var bs, os, zs [][]int64
 		var ds []bool
+		var los, his []int64
 		for ci, cc := range rg.ColumnChunks() {
 			oi, err := cc.OffsetIndex()
 			var b, o, z []int64
@@ -185,9 +188,16 @@ func c08Oracle(f *c08File) error {
 				}
 			}
 			bs, os, zs = append(bs, b), append(os, o), append(zs, z)
-			ds = append(ds, md.RowGroups[gi].Columns[ci].MetaData.DictionaryPageOffset != 0)
+			cm := md.RowGroups[gi].Columns[ci].MetaData
+			ds = append(ds, cm.DictionaryPageOffset != 0)
+			lo := cm.DataPageOffset
+			if cm.DictionaryPageOffset != 0 {
+				lo = cm.DictionaryPageOffset
+			}
+			los, his = append(los, lo), append(his, lo+cm.TotalCompressedSize)
 		}
 		f.bounds, f.offsets, f.dict, f.psize = append(f.bounds, bs), append(f.offsets, os), append(f.dict, ds), append(f.psize, zs)
+		f.chunkLo, f.chunkHi = append(f.chunkLo, los), append(f.chunkHi, his)
 	}
 	if f.rgStart[len(f.rgStart)-1] != f.n {
 		return fmt.Errorf("row groups hold %d rows, %d written", f.rgStart[len(f.rgStart)-1], f.n)
@@ -499,9 +509,10 @@ type c08Checker struct {
 	dead     bool // a negative seek was accepted: the reference position is undefined from here on
 	unknown  bool // a read reported the corrupted page: the position is undefined until the next seek / Reset
 	// what the last op produced, for the L2 trace
-	lastKind string // ok | err | eof | page | other
+	lastKind string // ok | err | eof | page | corrupt | other
 	lastPage []gen.Triple
 	lastNR   int
+	lastPos  int // reference position (rows) at which the last read started
 }
 
 func newC08Checker(f *c08File, v *c08View) *c08Checker {
@@ -644,6 +655,7 @@ func (ck *c08Checker) step(op c08Op) (desc string, fail *c08Fail) {
 	if pos > total {
 		pos = total
 	}
+	ck.lastPos = pos
 	finish := func(n int, err error, what string) (string, *c08Fail) {
 		d := fmt.Sprintf("%v @%d -> %d %s, %s", op, pos, n, what, errName(err))
 		if ck.f.bad != nil && errors.Is(err, parquet.ErrCorrupted) {
@@ -679,6 +691,9 @@ func (ck *c08Checker) step(op c08Op) (desc string, fail *c08Fail) {
 			}
 		}
 		ck.pos = pos + n
+		if err == nil || err == io.EOF {
+			ck.lastKind, ck.lastNR = "page", n
+		}
 		return finish(n, err, "rows")
 	case "typed":
 		got, n, err := v.readTyped(batch)
@@ -1065,10 +1080,18 @@ func c08HookState(f *c08File, sp c08Spec, v *c08View) string {
 		return ""
 	}
 	pos := 0
-	for _, o := range f.offsets[sp.RG][sp.Col] {
+	offs := f.offsets[sp.RG][sp.Col]
+	for _, o := range offs {
 		if o < st.StreamOffset {
 			pos++
 		}
+	}
+	// byte level (seek_byte_position): the decoder stands exactly on the first byte of page `pos`,
+	// on the first byte of the chunk (before anything was read: dictionary page) or behind the chunk
+	exact := (pos < len(offs) && st.StreamOffset == offs[pos]) || (pos == len(offs) && st.StreamOffset == f.chunkHi[sp.RG][sp.Col]) ||
+		(pos == 0 && st.StreamOffset == f.chunkLo[sp.RG][sp.Col])
+	if !exact && f.bad == nil {
+		return fmt.Sprintf("stream offset %d is not a page start (pages at %v, chunk %d..%d)", st.StreamOffset, offs, f.chunkLo[sp.RG][sp.Col], f.chunkHi[sp.RG][sp.Col])
 	}
 	li := st.LastPageIndex
 	if st.LastPage == nil {
@@ -1421,7 +1444,44 @@ func (w *c08Worker) runCase(f *c08File, sp c08Spec, ops []c08Op, origin string) 
 			tr.states = append(tr.states, c08HookState(f, sp, v))
 		}
 	}
+	// the layers above FilePages against their Lean machines (outputs only: there is no hook)
+	layerReq := ""
+	if f.bad == nil {
+		layerReq = c08LayerRequest(f, sp, ops)
+	}
+	var ltoks []string
+	if layerReq != "" {
+		inner := obs
+		obs = func(i int, op c08Op, v *c08View, ck *c08Checker) {
+			if inner != nil {
+				inner(i, op, v, ck)
+			}
+			t := ck.lastKind
+			if t == "page" {
+				t = fmt.Sprintf("p%d:%d", ck.lastPos, ck.lastNR)
+			} else if t == "corrupt" {
+				t = "fail"
+			}
+			ltoks = append(ltoks, t)
+		}
+	}
 	trace, fl := c08Run(f, sp, ops, obs)
+	if layerReq != "" && len(ltoks) > 0 {
+		ctx.Hist("l2-layers", sp.Kind)
+		toks, kind := ltoks, sp.Kind
+		w.reqs = append(w.reqs, layerReq)
+		w.pend = append(w.pend, func(ans string) {
+			want := strings.Fields(ans)
+			ok := len(want) > len(toks) && want[0] == "ok"
+			for i := 0; ok && i < len(toks); i++ {
+				ok = want[i+1] == toks[i]
+			}
+			if !ok {
+				ctx.Fail("L2", kind+"-layer-mirror", "the reader and its Lean machine disagree on the outputs of a history", map[string]any{
+					"file": f.desc, "view": sp.String(), "ops": c08OpsString(ops), "request": layerReq, "model": ans, "impl": strings.Join(toks, " ")})
+			}
+		})
+	}
 	nback, ncached := 0, 0
 	{
 		last := int64(-1)
@@ -1529,6 +1589,105 @@ func (w *c08Worker) runCase(f *c08File, sp c08Spec, ops []c08Op, origin string) 
 			w.flush()
 		}
 	}
+}
+
+// c08LayerRequest builds the driver request for the Lean machine of a reader kind above
+// FilePages ("" when the kind or the history is outside what the machines model).
+func c08LayerRequest(f *c08File, sp c08Spec, ops []c08Op) string {
+	if f.nrg() == 0 {
+		return ""
+	}
+	chunk := func(rg, col int) string {
+		rows := f.pageRows(rg, col)
+		sum := 0
+		for _, x := range rows {
+			if x <= 0 {
+				return ""
+			}
+			sum += x
+		}
+		if len(rows) == 0 || sum != f.rgStart[rg+1]-f.rgStart[rg] {
+			return ""
+		}
+		return core.JoinInts(rows)
+	}
+	column := func(col int) string { // all row groups
+		var cs []string
+		for rg := 0; rg < f.nrg(); rg++ {
+			c := chunk(rg, col)
+			if c == "" {
+				return ""
+			}
+			cs = append(cs, c)
+		}
+		return strings.Join(cs, "|")
+	}
+	rowsKind := false
+	total := f.n
+	switch sp.Kind {
+	case "rowgroup-rows", "rowgroup-rowreader":
+		rowsKind, total = true, f.rgStart[sp.RG+1]-f.rgStart[sp.RG]
+	case "multi-rows", "reader-readrows":
+		rowsKind = true
+	case "multi-pages", "range-pages":
+	default:
+		return ""
+	}
+	var sb strings.Builder
+	for i, o := range ops {
+		if i > 0 {
+			sb.WriteByte(',')
+		}
+		switch {
+		case o.K == 'i' || (o.K == 's' && o.A < 0):
+			return "" // lazy index load changes the chunk readers opened later; negative indexes are L1 only
+		case o.K == 's' && rowsKind && int(o.A) > total:
+			return "" // reader_seek_refines_partial: seeks up to the end
+		case o.K == 's':
+			fmt.Fprintf(&sb, "s%d", o.A)
+		case o.K == 'z':
+			sb.WriteByte('z')
+		case rowsKind:
+			fmt.Fprintf(&sb, "r%d", max(o.A, 1))
+		default:
+			sb.WriteByte('r')
+		}
+	}
+	if len(ops) == 0 {
+		return ""
+	}
+	idx := 1
+	if sp.SkipIndex {
+		idx = 0
+	}
+	switch sp.Kind {
+	case "multi-pages":
+		c := column(sp.Col)
+		if c == "" {
+			return ""
+		}
+		return fmt.Sprintf("multi.run %s %d %s", c, idx, sb.String())
+	case "range-pages":
+		c := chunk(sp.RG, sp.Col)
+		if c == "" {
+			return ""
+		}
+		return fmt.Sprintf("range.run %s %d %d %d %s", c, idx, sp.Off, sp.Len, sb.String())
+	}
+	var cols []string
+	for col := 0; col < f.ncol; col++ {
+		c := ""
+		if sp.Kind == "rowgroup-rows" || sp.Kind == "rowgroup-rowreader" {
+			c = chunk(sp.RG, col)
+		} else {
+			c = column(col)
+		}
+		if c == "" {
+			return ""
+		}
+		cols = append(cols, c)
+	}
+	return fmt.Sprintf("rows.run %s %d %s", strings.Join(cols, ";"), idx, sb.String())
 }
 
 func hashHex(b []byte) string {
